@@ -138,6 +138,11 @@ def Valid (env : Env) (m : Mode) : Schema → Option String → List String → 
   | .ptr elem zp nn, tag, path, v, d =>
     if Engine.ptrAbsent m v d then nn = none   -- NotNil had a present value, or the pointer is optional
     else Valid env m elem tag path v (d.pointee zp)
+  | .pre ps inner, tag, path, v, d =>
+    -- the Preprocess function accepted the value and the wrapped schema is valid on its result
+    match m with
+    | .parse => ps.accept v = true ∧ ∃ v', ps.run v = (v', none) ∧ Valid env m inner tag path v' d
+    | .validate => ∃ d', ps.runD d = (d', none) ∧ Valid env m inner tag path v d'
   | .slice elem sm, tag, path, v, d =>
     match sliceSrc m sm v d with
     | .skipped => True
@@ -379,6 +384,34 @@ theorem valid_of_clean (env : Env) (m : Mode) :
           (fieldLoop (fun k d st => procKey env .validate fs k tag .empty path d st) (Engine.orderOf (env.ω (render path)) fs.keys) d {}).1 := by
         unfold proc; simp [hp.1, runPosts_nil]
       rw [e]; exact this.2
+  | .pre ps inner, hp, hw, tag, path, v, d, h => by
+    simp only [Schema.postFree] at hp
+    simp only [Schema.WF] at hw
+    have loc : ∀ v d s, proc env m inner tag path v d s =
+        ((proc env m inner tag path v d {}).1, s.app (proc env m inner tag path v d {}).2) :=
+      fun v d => proc_local env m inner hp tag path v d
+    unfold proc at h
+    simp only [Valid]
+    cases m <;> simp only at h ⊢
+    · cases ha : ps.accept v
+      · simp [ha, emit] at h
+      · simp only [ha, ↓reduceIte] at h
+        rcases hr : ps.run v with ⟨v', e⟩
+        cases e with
+        | none =>
+          simp only [hr] at h
+          rw [loc] at h
+          refine ⟨rfl, v', rfl, valid_of_clean env .parse inner hp hw tag path v' d ?_⟩
+          simpa [St.app] using h
+        | some e => simp [hr, emit] at h
+    · rcases hr : ps.runD d with ⟨d', e⟩
+      cases e with
+      | none =>
+        simp only [hr] at h
+        rw [loc] at h
+        refine ⟨d', rfl, valid_of_clean env .validate inner hp hw tag path v d' ?_⟩
+        simpa [St.app] using h
+      | some e => simp [hr, emit] at h
 theorem validFields_of_clean (env : Env) (m : Mode) (fs : Fields) (tag : Option String) (prov : Prov) (path : List String) (d : DVal)
     (hclean : ∀ k ∈ fs.keys, (fieldStep env m fs tag prov path k d).2.sink = []) :
     ∀ (pre rest : Fields), fs = pre.append rest → rest.postFree = true → rest.WF → (pre.keys ++ rest.keys).Nodup →
